@@ -3,5 +3,6 @@ EXTENDS VerbsRestructureCases, Json
 VARIABLE x
 Init == x \in Cases
 Next == UNCHANGED x
-Emit == PrintT(ToJson(x))
+\* parts: the verb configurations the harness spells, joined by `then` (one, or the two of a chain)
+Emit == PrintT(ToJson([c |-> x.c, s |-> x.s, parts |-> Parts(x.c)]))
 =============================================================================
